@@ -6,7 +6,32 @@ from harness import mmdesign
 OWNER = 'C04'
 
 
+DIAG_REUSE_CFG = """SPECIFICATION Spec
+CONSTANTS Groups = {"g1", "g2", "g3"}
+ MaxObjs = %d
+ Fixes = %s
+INVARIANT DiagBelongsToDesign
+"""
+
+
+def diag_reuse(res):
+  """Design level: one diagnostics object is re-pointed per control group, stored designs hold deep copies
+  (DiagReuse.tla). The aliasing variant (no copy) must still produce the counterexample."""
+  from harness import tlc
+  r = tlc.run_tlc('DiagReuse', DIAG_REUSE_CFG % (6 if res.tier == 'thorough' else 5, '{"copy"}'), tlc.run_dir('C04_diagreuse'),
+                  workers=8)
+  tlc.require_clean(r, 'DiagReuse')
+  if r.violated:
+    raise tlc.MachineryError('DiagReuse (deep copies, the current code) violates %s' % r.violated)
+  res.add_tlc(r, 'DiagReuse')
+  r0 = tlc.run_tlc('DiagReuse', DIAG_REUSE_CFG % (5, '{}'), tlc.run_dir('C04_diagreuse_alias'), workers=1)
+  if r0.violated != 'DiagBelongsToDesign':
+    raise tlc.MachineryError('DiagReuse without the copy no longer yields the aliasing counterexample')
+  res.extra['aliasing_variant_counterexample_length'] = len(r0.error_trace)
+
+
 def run(res):
+  diag_reuse(res)
   mmdesign.run_design_level(res, OWNER)
   insts, verdicts, stats = mm.run_search_clauses(res, OWNER)
   mm.vacuity_guard(res, OWNER, stats)
